@@ -554,6 +554,43 @@ def gen_valid(r, maxdepth=6, n_items=10, signed_literal=True, imports=()):
         for suffix, ty in lib.consts:
             # static references are closed: usable in constant positions as well
             env.by_ty.setdefault(ty, []).append("%s.%s" % (alias, suffix))
+    # inline (nested) types: expressions inside `Main.Inl`, its nested `bits`, and an inline enum —
+    # the traversals of all three passes have to descend into subtypes
+    if r.random() < 0.6:
+        ienv = env0.copy()
+        ienv.by_ty, ienv.fields = {}, []
+        ienv.add("ia", "int")
+        gi = ExprGen(r, ienv)
+        di = min(d, 3)
+        m.add("  %d [+3]  struct  inl:" % off)
+        m.add("    0 [+1]  UInt  ia")
+        m.add("    if {0}:", [("if", gi.gen("bool", di), "bool", ienv.copy())])
+        m.add("      1 [+1]  UInt  ib")
+        m.add("    let iv = {0}", [("let", gi.gen("int", di), "int", ienv.copy())])
+        ienv.add("iv", "int")
+        m.add("    2 [+1]  bits  nb:")
+        benv = env0.copy()
+        benv.by_ty, benv.fields = {}, []
+        benv.add("nib", "int")
+        m.add("      0 [+4]  UInt  nib")
+        m.add("      if {0}:", [("if", ExprGen(r, benv).gen("bool", di), "bool", benv)])
+        m.add("        4 [+4]  UInt  nf")
+        m.add("      let nv = {0}", [("let", ExprGen(r, benv).gen("int", di), "int", benv)])
+        off += 3
+        m.add("  %d [+1]  enum  st:" % off)
+        m.add("    OK = {0}", [("enum-value", gvalue.int_with_value(r.randint(0, 50), r.randint(0, 2)), "int", env0)])
+        m.add("    BAD = {0}", [("enum-value", gvalue.int_with_value(r.randint(51, 99), r.randint(0, 2)), "int", env0)])
+        off += 1
+        env.enums = dict(env.enums)
+        env.alias = dict(env.alias)
+        env.enums["Main/St"] = ["OK", "BAD"]
+        env.alias["Main/St"] = "St"
+        env.add("st", ("enum", "Main/St"))
+        for nm in ("inl.ia", "inl.iv", "inl.nb.nib", "inl.nb.nv"):
+            env.add(nm, "int")
+        env.fields.append(("inl", "opaque"))
+        m.meta["opaque"].append("inl")
+        m.meta["nested"] = True
     m.meta["aliases"] = [alias for alias, _ in imports]
     m.meta["static_phys"] = ["Main.x"] + ["%s.%s" % (alias, lib.phys) for alias, lib in imports]
     counter = [0]
@@ -1180,6 +1217,9 @@ def _b_functions(r):
             k += 1
             L.err("  let m%d_%d = $max(%s)" % (n, i, ", ".join(args)))
     L.err("  let m0 = $max()")
+    L.err("  let mm2 = $max(fb, x, ea)")
+    L.err("  let mm9 = $max(x, fb, x, x, x, x, x, x, ea, x, arr)")
+    L.err("  let mm20 = $max(%s)" % ", ".join(["fb"] * 20))
     for fn in ("$present", "$upper_bound", "$lower_bound"):
         L.ok("  let u1%s = %s(x)" % (fn[1:3], fn))
         for n in [0, 2, 3, 5, 8, 9, 12, 17]:
@@ -1246,6 +1286,14 @@ def _b_positions(r):
             k += 1
             L.err("  %d [+1]  Pq%d(%s)  b%d_%d" % (off, n, ", ".join(a), n, i))
             off += 1
+        if n >= 2:
+            # several offenders in one use: each is reported (the model has the exact set)
+            for tag, idxs in (("e", [0, n - 1]), ("a", list(range(n)))):
+                a = list(good)
+                for i in idxs:
+                    a[i] = "fb"
+                L.err("  %d [+1]  Pq%d(%s)  d%s%d" % (off, n, ", ".join(a), tag, n))
+                off += 1
         for m_ in sorted(set([0, n - 1, n + 1, n + 7]) - {n}):
             a = (good * 3)[:m_]
             L.err("  %d [+1]  Pq%d%s  w%d_%d" % (off, n, "(%s)" % ", ".join(a) if a else "", n, m_))
